@@ -245,9 +245,11 @@ example : compiles exF2 = true := by decide
 
 /-- F3 programs: as F2, and `switch (op) { case …: … default: … }` with `break`, fall-through from one case block into the next,
 several cases (and the default) sharing a block, `CaseValue` under `SwitchScenario`; nested in any way with ifs and loops
-(`cgStmts 3`).  Not in F3: a header op that ends the routine, more than one default, a case block that
-consists of a single `break` / `continue` / `break_loop` (`_process_block` may fold such a block into the case's header
-jump). -/
+(`cgStmts 3`); a switch without cases is its header operation.  Not in F3: a header op that ends the routine; more than one
+default; a case block that consists of a single `break` / `continue` / `break_loop` / `jump` (`_process_block` may fold such a
+block into the case's header jumps) if control can fall into it from the block before — it is in F3 if it is the first block
+of the switch, a default block, or the block before it ends in `return` / `end` / `hold` / `break` / `continue` / `break_loop` /
+`jump`. -/
 def F3Prog (p : Program) : Prop := CgProg 3 p
 
 instance (p : Program) : Decidable (F3Prog p) := by unfold F3Prog; infer_instance
